@@ -8,7 +8,7 @@ from .values import (
     zi, zr, zb, zs, mk_int, mk_bool, mk_str, mk_float, is_intlike, is_floatlike, is_numlike, is_strlike,
     fresh_name,
 )
-from .path import Infeasible, PathEnd, OutOfSubset
+from .path import Infeasible, PathEnd, OutOfSubset, WouldFork
 from .source import anchor
 
 
@@ -338,9 +338,14 @@ class Interp:
         specs = self.loops.get(fn.qualname) or self.loops.get(fn.name)
         ords = _loop_ordinals(fn.node)
         o = ords.get(id(node))
-        if specs is None:
-            return None, o
-        return specs.get(o), o
+        spec = specs.get(o) if specs is not None else None
+        self._default_spec = False
+        if spec is None:
+            dl = self.config.get("default_loop")
+            if dl is not None:
+                spec = dl(self, fn, o, node, frame)
+                self._default_spec = spec is not None
+        return spec, o
 
     def s_While(self, node, frame):
         spec, o = self.loop_spec(node, frame)
@@ -363,7 +368,11 @@ class Interp:
 
     def s_For(self, node, frame):
         spec, o = self.loop_spec(node, frame)
+        is_default = self._default_spec
         it = self.eval(node.iter, frame)
+        if is_default and not (isinstance(it, PList) and it.is_sym() or isinstance(it, SStr)
+                               or isinstance(it, RangeVal) and not all(isinstance(x, int) for x in (it.start, it.stop, it.step))):
+            spec = None      # the default loop contract is for symbolic iteration spaces; concrete ones are unrolled
         if spec is not None:
             return self.loop_with_invariant(node, frame, spec, o, it)
         items = self.iterate(it, node)
@@ -526,7 +535,7 @@ class Interp:
             if pathexpr.startswith("ghost:"):
                 self.havoc_ghost(pathexpr[6:])
             else:
-                self.havoc_path(pathexpr, frame)
+                self.havoc_path(pathexpr, frame, node)
         k = None
         if is_for:
             k = self.fresh_int("k")
@@ -623,8 +632,61 @@ class Interp:
         else:
             self.unsupported("havoc of ghost " + name)
 
-    def havoc_path(self, pathexpr, frame):
+    def havoc_reachable(self, frame, loop_node=None, local_kinds=None):
+        """havoc every host list / dict reachable from the locals the loop body may mutate (loops that build up nodes).
+
+        Frame inference (syntactic, conservative): a local can only be mutated by the body when the body rebinds it,
+        stores through it (x.a = .., x[i] = ..), calls a method on it (x.m(..), x.a.m(..)) or passes it (or something
+        reached from it) to a call.  Locals that are only read (compared, tested for membership, indexed) keep their value.
+        `local_kinds` gives the element kind of lists held directly by a local (checked: the list is empty or of that kind
+        at loop entry; a store of another kind in the body is out of subset)."""
+        seen = set()
+        local_kinds = local_kinds or {}
+        names = None if loop_node is None else _maybe_mutated_names(loop_node)
+
+        def visit(v, depth, kind="any"):
+            if id(v) in seen or depth > 3:
+                return
+            seen.add(id(v))
+            if isinstance(v, PList):
+                if getattr(v, "glob", False):
+                    return
+                if kind == "str":
+                    if v.is_sym() and v.kind != "str" or not v.is_sym() and not all(is_strlike(x) for x in v.items):
+                        self.unsupported("declared element kind does not hold at loop entry")
+                    v.items = None
+                    v.sym = z3.Const(self.fresh("seq"), z3.SeqSort(z3.StringSort()))
+                    v.kind = "str"
+                    return
+                v.items = None
+                v.sym = z3.Const(self.fresh("seq"), z3.SeqSort(z3.IntSort()))
+                v.kind = "any"
+            elif isinstance(v, PDict):
+                if getattr(v, "glob", False) or v.is_sym():
+                    return
+                v.entries = []
+                v.sym_dom = z3.Array(self.fresh("dom"), z3.StringSort(), z3.BoolSort())
+                v.sym_val = z3.Array(self.fresh("val"), z3.StringSort(), z3.IntSort())
+                v.key_kind = "str"
+                v.val_sort = "any"
+            elif isinstance(v, Obj) and not getattr(v, "glob", False):
+                for x in list(v.fields.values()):
+                    visit(x, depth + 1)
+        for name, v in list(frame.locals.items()):
+            if names is not None and name not in names:
+                continue
+            visit(v, 0, local_kinds.get(name, "any"))
+
+    def havoc_path(self, pathexpr, frame, loop_node=None):
+        if pathexpr == "*reachable*":
+            return self.havoc_reachable(frame, loop_node, self.config.get("local_kinds"))
         pathexpr, _, newkind = pathexpr.partition(":")
+        node_ = ast.parse(pathexpr, mode="eval").body
+        if isinstance(node_, ast.Attribute):
+            owner = self.eval(node_.value, frame)
+            if isinstance(owner, Obj) and not isinstance(owner.fields.get(node_.attr), HeapObj):
+                owner.fields[node_.attr] = self.havoc_like(owner.fields.get(node_.attr), node_.attr)
+                return
         v = self.eval(ast.parse(pathexpr, mode="eval").body, frame)
         if isinstance(v, PList):
             if newkind:
@@ -717,17 +779,25 @@ class Interp:
         return mk_str(out)
 
     def e_BoolOp(self, node, frame):
-        v = None
-        if isinstance(node.op, ast.And):
-            for e in node.values:
-                v = self.eval(e, frame)
-                if not self.truth(v):
-                    return v
-            return v
-        for e in node.values:
-            v = self.eval(e, frame)
-            if self.truth(v):
+        is_and = isinstance(node.op, ast.And)
+        v = self.eval(node.values[0], frame)
+        if self.config.get("merge_boolops") and isinstance(v, SBool) and all(_pure_expr(e) for e in node.values[1:]):
+            # `a and b` with side-effect-free b that evaluates without forking or raising: the value And(a, b), one
+            # path instead of one per way of being false (falls back to sequential evaluation otherwise)
+            self.path.nofork += 1
+            try:
+                rest = [self.eval(e, frame) for e in node.values[1:]]
+            except (WouldFork, PyRaise, OutOfSubset):
+                rest = None
+            finally:
+                self.path.nofork -= 1
+            if rest is not None and all(isinstance(r, (bool, SBool)) for r in rest):
+                parts = [v.z] + [zb(r) for r in rest]
+                return mk_bool(z3.And(*parts) if is_and else z3.Or(*parts))
+        for e in node.values[1:]:
+            if bool(self.truth(v)) != is_and:
                 return v
+            v = self.eval(e, frame)
         return v
 
     def e_UnaryOp(self, node, frame):
@@ -1838,6 +1908,43 @@ def _assigned_names(stmts):
                 out.add(n.id)
             elif isinstance(n, ast.AugAssign) and isinstance(n.target, ast.Name):
                 out.add(n.target.id)
+    return out
+
+
+def _pure_expr(e):
+    """syntactically free of calls and of anything that binds or mutates"""
+    for n in ast.walk(e):
+        if not isinstance(n, (ast.Name, ast.Attribute, ast.Constant, ast.Compare, ast.BoolOp, ast.UnaryOp, ast.Load, ast.And, ast.Or, ast.Not,
+                              ast.Eq, ast.NotEq, ast.Is, ast.IsNot, ast.cmpop, ast.boolop, ast.unaryop)):
+            return False
+    return True
+
+
+def _maybe_mutated_names(loop_node):
+    out = _assigned_names(loop_node.body)
+    if isinstance(loop_node, ast.For):
+        out |= _target_names(loop_node.target)
+
+    def base(e):
+        while isinstance(e, (ast.Attribute, ast.Subscript, ast.Starred)):
+            e = e.value
+        return e.id if isinstance(e, ast.Name) else None
+    nodes = list(loop_node.body) + ([loop_node.test] if isinstance(loop_node, ast.While) else [loop_node.iter])
+    for s_ in nodes:
+        for n in ast.walk(s_):
+            if isinstance(n, ast.Call):
+                if isinstance(n.func, ast.Attribute):
+                    b = base(n.func.value)
+                    if b:
+                        out.add(b)
+                for a in list(n.args) + [k.value for k in n.keywords]:
+                    for m in ast.walk(a):
+                        if isinstance(m, ast.Name):
+                            out.add(m.id)
+            elif isinstance(n, (ast.Attribute, ast.Subscript)) and isinstance(n.ctx, (ast.Store, ast.Del)):
+                b = base(n)
+                if b:
+                    out.add(b)
     return out
 
 
